@@ -645,14 +645,21 @@ fn build_debug_expr(
             Fields::Named(_) => true,
             Fields::Unnamed(_) | Fields::Unit => false,
         };
-        let mut expr = TokenStream::new();
-        let debug_x = match is_named {
-            true => quote!(debug_struct),
-            false => quote!(debug_tuple),
+        // The builder is driven through paths, not method calls: a method call would be looked up
+        // among the traits in scope of the caller as well.
+        let (builder, new) = match is_named {
+            true => (
+                quote!(::core::fmt::DebugStruct),
+                quote!(::core::fmt::Formatter::debug_struct),
+            ),
+            false => (
+                quote!(::core::fmt::DebugTuple),
+                quote!(::core::fmt::Formatter::debug_tuple),
+            ),
         };
         // Names are printed without the `r#` prefix of raw identifiers.
         let name = ident.unraw().to_string();
-        expr.extend(quote!(__f.#debug_x(#name)));
+        let mut expr = quote!(&mut #new(__f, #name));
         for field in fields {
             if !field.hattrs.is_debug_ignore() {
                 let e = to_expr(field);
@@ -660,14 +667,14 @@ fn build_debug_expr(
                     Some(ident) => ident.unraw().to_string(),
                     None => field.index.to_string(),
                 };
-                expr.extend(match is_named {
-                    true => quote! (.field(#name, #e)),
-                    false => quote! (.field(#e)),
-                });
+                expr = match is_named {
+                    true => quote!(#builder::field(#expr, #name, #e)),
+                    false => quote!(#builder::field(#expr, #e)),
+                };
                 field.push_bounds_to(use_bounds, kind, wcb);
             }
         }
-        expr.extend(quote!(.finish()));
+        expr = quote!(#builder::finish(#expr));
         expr
     };
     Ok(expr)
